@@ -24,6 +24,9 @@ mod vfs;
 mod vlog;
 mod wal;
 
+#[cfg(feature = "verif-hooks")]
+pub mod verif;
+
 #[cfg(test)]
 mod test;
 
